@@ -110,6 +110,12 @@ def run_continue(case):
 def continue_cases(draw):
     o = draw(cfggen.base_config(nmin=16, nmax=48, max_laststep=5, multibunch=False, wake=("none", "none", "collimator", "wall", "csr")))
     o.pop("rotations", None)
+    if o.get("VacuumGap", 0.03) != 0:
+        # "impedances below threshold": a weak current and a resolved step, otherwise the microwave instability amplifies
+        # rounding-level differences exponentially and "within rounding" is meaningless
+        o["BunchCurrent"] = [gen.f32(draw(st.floats(5e-5, 4e-4)))]
+        o["StepsPerTs"] = draw(st.integers(40, 200))
+        o["InterpolationPoints"] = draw(st.sampled_from([2, 3, 4]))
     o["RenormalizeCharge"] = draw(st.sampled_from([-1, -1, 0, 4]))
     o["InitialDistZoom"] = draw(st.sampled_from([0.7, 0.85, 1.0]))
     # mostly charge-conserving configurations (bunch well inside the grid, real interpolation): only there is
